@@ -261,6 +261,8 @@ pub enum ChildOp {
     Exit { code: i32 },
     /// library code returned or unwound in the forked child
     Escaped { how: String },
+    /// nanosleep() and friends between fork and exec
+    Sleep { ns: u64 },
     Other { name: String },
 }
 
@@ -361,6 +363,10 @@ pub struct Proc {
     pub exec_idx: u32,
     /// parent thread that forked this process
     pub forked_by: Option<u8>,
+    /// between fork and exec: index of the next recorded call to apply, and the time until which
+    /// the process sleeps (it called nanosleep() there) before going on
+    pub preexec_pos: usize,
+    pub preexec_wake: Option<u64>,
 }
 
 #[derive(Clone, Debug, PartialEq, Eq, Serialize, Deserialize)]
@@ -1632,6 +1638,8 @@ impl Proc {
             cc_idx: 0,
             exec_idx: 0,
             forked_by: None,
+            preexec_pos: 0,
+            preexec_wake: None,
         }
     }
     pub fn alive(&self) -> bool {
